@@ -472,6 +472,7 @@ func genC16(c *Ctx) {
 	}
 	genCsrc(c)
 	c16ChunkedFailures(c, s)
+	c16StepRaces(c, s)
 	c16LongUploads(c, s)
 	c16RealTime(c, s)
 	for i := 0; i < c.N(3, 12); i++ {
@@ -799,6 +800,53 @@ func c16Check(c *Ctx, s *app.Server, a *app.VerifAsset, cf string, now int, dur,
 
 // c16RealTime: a session on the wall clock (no test instant) with $Time$ addresses against a receiver that stalls once for
 // longer than two segment durations: the sender catches up afterwards — and still delivers every segment once, in order.
+// c16StepRaces: a step request that arrives while the session goroutine is busy and the session then ends without
+// taking it — the only segment of a one-segment session is still being uploaded to a slow receiver; the init uploads
+// are refused after a delay — is answered (409 or 200), it does not wait forever.
+func c16StepRaces(c *Ctx, s *app.Server) {
+	a := findVAsset("testpic_2s")
+	if a == nil {
+		return
+	}
+	for _, sc := range []string{"last-segment-in-flight", "init-refused-late"} {
+		sr := newScriptedReceiver()
+		setup := map[string]any{"destRoot": sr.srv.URL + "/race", "destName": "ch", "livesimURL": "/livesim2/" + a.AssetPath + "/Manifest.mpd", "testNowMS": 3*a.LoopDurMS + 300}
+		line := "# POST /api/cmaf-ingests testpic_2s, scenario " + sc + ": a second step while the session is about to end"
+		if sc == "last-segment-in-flight" {
+			setup["duration"] = a.SegmentDurMS / 1000
+			sr.slowOnceRe = regexp.MustCompile(`/V300/\d+\.cmfv$`)
+			sr.slowOnceDur = 700 * time.Millisecond
+		} else {
+			sr.delay = 300 * time.Millisecond
+			sr.failNth[0], sr.failNth[1] = 503, 503
+		}
+		code, resp, hung := apiCall(s, "POST", "/api/cmaf-ingests", setup)
+		if hung || code >= 300 {
+			sr.srv.Close()
+			continue
+		}
+		id, _ := resp["id"].(string)
+		c.Count("step-race." + sc)
+		hungStep := false
+		if sc == "last-segment-in-flight" {
+			waitFor(1500*time.Millisecond, func() bool { return len(sr.snapshot()) >= 2 })
+			first := make(chan bool, 1)
+			go func() { _, _, h := apiCall(s, "GET", "/api/cmaf-ingests/"+id+"/step", nil); first <- h }()
+			time.Sleep(150 * time.Millisecond)
+			_, _, h2 := apiCall(s, "GET", "/api/cmaf-ingests/"+id+"/step", nil)
+			hungStep = h2 || <-first
+		} else {
+			_, _, hungStep = apiCall(s, "GET", "/api/cmaf-ingests/"+id+"/step", nil)
+		}
+		if hungStep {
+			c.Violate("hang", "a step request that races with the end of the session ("+sc+") does not return", []string{line}, nil)
+		} else {
+			apiCall(s, "DELETE", "/api/cmaf-ingests/"+id, nil)
+		}
+		sr.srv.Close()
+	}
+}
+
 // c16LongUploads (thorough tier, ~25 s of wall clock): uploads that take longer than a few seconds are still complete.
 // (1) the receiver answers the first init segment only after 5.6 s: the session goes on and the steps deliver;
 // (2) a chunked low-latency session whose segments are written over more than 6 s (ato_6/chunkdur_2 on 8 s segments):
